@@ -75,10 +75,12 @@ func runC05(w *World) *Result {
 
 func runC02(w *World) *Result {
 	r := NewResult("C02")
-	r.Explanation = "Decides structural conditions of calls and variable isolation on the emitters: (mangle) a helper allocated by a converter method is written and read under one name form inside functions; (reg) return registers are written and read with the same stem and index in both back ends, read right after the call line, arguments bound positionally in order."
+	r.Explanation = "Decides structural conditions of calls and variable isolation. Parser (ident): every statement that refers to an existing variable stores the definition the context lookup returned (emitted name and global flag as defined), and lookups reach file-prefixed globals from function scope. Emitters: (mangle) a helper allocated by a converter method is written and read under one name form inside functions; (reg) return registers are written and read with the same stem and index in both back ends, read right after the call line, arguments bound positionally in order."
 	r.NotDecided = "actual isolation at run time when user names collide with the mangling scheme (C10); values through nested calls."
 	r.Rule("R-C02-mangle", "helper stored and read under the same (mangled) name within one converter method", 30)
 	r.Rule("R-C02-reg", "return/argument registers: writer and reader agree on stem and index; reads follow the call line", 5)
+	r.Rule("R-C02-ident", "statements referring to existing variables carry the looked-up definition; lookups find file-prefixed globals from any scope", 6)
+	IdentRule(w, r, "R-C02-ident")
 	for _, role := range []string{"bash", "batch"} {
 		b, err := BuildBackend(w, role)
 		if err != nil {
